@@ -69,7 +69,15 @@ def vector_extras(path):
                         import base64
                         b = base64.b64decode(b"".join(l for l in b.splitlines() if not l.startswith(b"-----")))
                     v1.add(len(b))
-    json.dump({"tuples": sorted(map(list, tuples)), "pw": sorted(map(list, pw)), "v1secret": sorted(v1)}, open(path, "w"))
+    # RSA keys as outside tools wrote them (harness fixtures: other exponents, key-sealing sizes): their DER lengths
+    v1pub = set()
+    import base64, glob
+    for f in glob.glob(os.path.join(C.ROOT, "harness", "fixtures", "rsa*.pem")):
+        body = b"".join(l for l in open(f, "rb").read().splitlines() if not l.startswith(b"-----"))
+        n = len(base64.b64decode(body))
+        if any(f.endswith("/%s.%s.pem" % (k, "sec" if f.endswith(".sec.pem") else "pub")) for k in ("rsa2048-0", "rsa2048-1", "rsa2048e3-0", "rsa4096-0")):
+            (v1 if f.endswith(".sec.pem") else v1pub).add(n)
+    json.dump({"tuples": sorted(map(list, tuples)), "pw": sorted(map(list, pw)), "v1secret": sorted(v1), "v1public": sorted(v1pub)}, open(path, "w"))
     return len(tuples), len(pw)
 
 
